@@ -12,6 +12,6 @@ def genTf : TfProg :=
    tfDeleteCharLeftOfCursor, tfDeleteCursorToEndOfLine, tfInsertLoop, tfGraphemeCount, tfDraw, tfDrawCursorKey⟩
 
 /-- The regenerated textinput. -/
-def genTi : TiProg := ⟨tiSetContent, tiUpdate, tiResegment, tiIsAlphaNumeric, tiWidthToCursor⟩
+def genTi : TiProg := ⟨tiSetContent, tiUpdate, tiResegment, tiIsAlphaNumeric, tiWidthToCursor, tiString, tiCursorPosition⟩
 
 end VaxisModel.Model.EdGen
